@@ -1217,7 +1217,11 @@ func TestVerif_C09(t *testing.T) {
 	pubCoq, pubIdx := c09PublishedOverTime(t, res, rng)
 	sb.WriteString(pubCoq)
 	idx.WriteString(pubIdx)
-	sb.WriteString("Definition c09_ncases := Eval vm_compute in (length seq_cases + length route_cases + length pub_cases)%nat.\nPrint c09_ncases.\n")
+	// ------------------------------------------------------------ (f) the auto-unseal path against a fake cloud (c09aws.go)
+	autoCoq, autoIdx := c09AutoUnseal(t, res)
+	sb.WriteString(autoCoq)
+	idx.WriteString(autoIdx)
+	sb.WriteString("Definition c09_ncases := Eval vm_compute in (length seq_cases + length route_cases + length pub_cases + length auto_cases)%nat.\nPrint c09_ncases.\n")
 	if err := ioutil.WriteFile(filepath.Join(verifOut(), "CasesC09.v"), []byte(sb.String()), 0644); err != nil {
 		t.Fatal(err)
 	}
